@@ -341,6 +341,13 @@ func countIn(f *ssa.Function, target *ssa.BinOp, isErrT func(ssa.Value) bool) in
 func lastPositionType(v ssa.Value) (bool, string) {
 	switch x := v.(type) {
 	case *ssa.Call:
+		// `get(count-1)` where get and count are parameters of a private helper (`valueTypes(n, t.Out, trimError)`): at
+		// every call site that can reach the comparison, get is the bound accessor of a type and count its own length
+		if prm, ok := x.Common().Value.(*ssa.Parameter); ok && x.Common().StaticCallee() == nil && len(x.Common().Args) == 1 {
+			if pr := core.Active; pr != nil && pr.PrivateHelper(prm.Parent()) {
+				return strategyLastPosition(pr, x, prm)
+			}
+		}
 		nm := core.CalleeName(x.Common())
 		a := core.CallArgs(x.Common())
 		switch nm {
@@ -383,6 +390,73 @@ func lastPositionType(v ssa.Value) (bool, string) {
 		}
 	}
 	return false, "compared value " + core.Path(v) + " is not recognisably the last result's type"
+}
+
+// strategyLastPosition decides `get(count-1)` for a helper whose accessor and length are parameters.
+func strategyLastPosition(pr *core.Prog, call *ssa.Call, getP *ssa.Parameter) (bool, string) {
+	h := getP.Parent()
+	b, ok := call.Common().Args[0].(*ssa.BinOp)
+	if !ok || b.Op != token.SUB {
+		return false, "index is not count-1"
+	}
+	if k, ok := core.ConstInt(b.Y); !ok || k != 1 {
+		return false, "index is not count-1"
+	}
+	cntP, ok := b.X.(*ssa.Parameter)
+	if !ok || cntP.Parent() != h {
+		return false, "count is not a parameter of the helper"
+	}
+	idxOf := func(q *ssa.Parameter) int {
+		for i, x := range h.Params {
+			if x == q {
+				return i
+			}
+		}
+		return -1
+	}
+	gi, ci := idxOf(getP), idxOf(cntP)
+	// boolean parameters that must be true for the comparison to execute
+	var gates []int
+	for _, l := range core.Lits(core.Guards(call.Block())) {
+		if l.Kind == "bool" && l.Pol {
+			if bp, ok := l.Of.(*ssa.Parameter); ok && bp.Parent() == h {
+				gates = append(gates, idxOf(bp))
+			}
+		}
+	}
+	sites := pr.Callers(h)
+	n := 0
+	for _, s := range sites {
+		as := s.Common().Args
+		off := false
+		for _, g := range gates {
+			if g >= 0 && g < len(as) {
+				if kb, ok := core.ConstBool(as[g]); ok && !kb {
+					off = true // this site switches the comparison off
+				}
+			}
+		}
+		if off {
+			continue
+		}
+		n++
+		mc, ok := as[gi].(*ssa.MakeClosure)
+		if !ok || len(mc.Bindings) != 1 {
+			return false, "accessor handed in at " + pr.InstrPos(s) + " is not a bound method"
+		}
+		fn, _ := mc.Fn.(*ssa.Function)
+		if fn == nil || !strings.HasPrefix(fn.Name(), "Out$bound") && fn.Name() != "Out$bound" {
+			return false, "accessor handed in at " + pr.InstrPos(s) + " is " + fn.Name() + ", not the result accessor"
+		}
+		cc, ok := as[ci].(*ssa.Call)
+		if !ok || core.CalleeName(cc.Common()) != "(reflect.Type).NumOut" || core.Path(core.CallArgs(cc.Common())[0]) != core.Path(mc.Bindings[0]) {
+			return false, "count handed in at " + pr.InstrPos(s) + " is not NumOut() of the same type"
+		}
+	}
+	if n == 0 {
+		return false, "no call site enables the comparison"
+	}
+	return true, "Out(NumOut()-1) through the accessor/length parameters of " + core.FuncName(h)
 }
 
 func lastElem(v ssa.Value) (bool, string) {
